@@ -246,11 +246,12 @@ class LRI(dict):
             return link[VALUE]
 
     def get(self, key, default=None):
-        try:
-            return self[key]
-        except KeyError:
-            self.soft_miss_count += 1
-            return default
+        with self._lock:
+            try:
+                return self[key]
+            except KeyError:
+                self.soft_miss_count += 1
+                return default
 
     def __delitem__(self, key):
         with self._lock:
